@@ -11,6 +11,8 @@ import TantivyModel.Proofs.Store.DocPath
 import TantivyModel.Proofs.Store.Framing
 import TantivyModel.Proofs.Store.WriterBound
 import TantivyModel.Model.Store.Utf8
+import TantivyModel.Proofs.Store.Lz4
+import TantivyModel.Model.Store.PreTok
 /-!
 # C09 — Stored documents are returned exactly as they were added
 
@@ -151,6 +153,36 @@ theorem C09_compact_doc_roundtrip (fvs : List (BitVec 32 × StoredValue)) (node 
     (hf : ∀ fv ∈ fvs, depthV fv.2 ≤ fuel) (hb : (cdAddDoc node fvs).1.length < 4294967296) :
     cdReadDoc fuel ((cdAddDoc node fvs).1 ++ ext) (cdAddDoc node fvs).2 = some fvs :=
   cdReadDoc_add fvs node ext fuel hf hb
+
+/-- the precondition of the document round trip that the code enforces with a panic: field ids must
+fit `FieldValueAddr::field` (u16, extracted); exactly then `add_field_value` succeeds, and then the
+document returns what was added -/
+theorem C09_compact_doc_field_limit (fvs : List (BitVec 32 × StoredValue)) (fuel : Nat)
+    (hf : ∀ fv ∈ fvs, depthV fv.2 ≤ fuel) (hb : (cdAddDoc [] fvs).1.length < 4294967296) :
+    ((cdAddDocChecked [] fvs).isSome = true ↔ ∀ fv ∈ fvs, fv.1.toNat < Gen.CD_FIELD_ID_LIMIT) ∧
+    ∀ r, cdAddDocChecked [] fvs = some r → cdReadDoc fuel r.1 r.2 = some fvs := by
+  refine ⟨cdAddDocChecked_iff [] fvs, ?_⟩
+  intro r hr
+  unfold cdAddDocChecked at hr
+  split at hr
+  · cases hr
+    have := cdReadDoc_add fvs [] [] fuel hf hb
+    simpa using this
+  · cases hr
+
+/-- contract of serde_json for the struct `PreTokenizedString` -/
+def PreTokJsonGood (J : PreTokJson) : Prop := ∀ p, J.fromJson (J.toJson p) = some p
+
+/-- a pre-tokenized text added at the top level of a document (`add_pre_tokenized_text`): the
+document holds its JSON; `serialize_doc` reads it back from `node_data` and stores exactly the
+text, as a plain string (this is `FieldInput.preTokText` of `C09_doc_codec_roundtrip`). Nested in
+an array or object it keeps its JSON (`C09_value_codec_roundtrip`, `.preTok`). -/
+theorem C09_pretok_top_level (J : PreTokJson) (hJ : PreTokJsonGood J) (p : PreTok) (node ext : Bytes)
+    (fuel : Nat) (hf : 1 ≤ fuel) (hb : (cdAdd node (preTokValue J p)).1.length < 4294967296) :
+    (cdRead fuel ((cdAdd node (preTokValue J p)).1 ++ ext) (cdAdd node (preTokValue J p)).2).bind (topLevelStored J)
+      = some (.str p.text) := by
+  rw [C09_compact_doc_value_roundtrip (preTokValue J p) node ext fuel (by simpa [preTokValue, depthV] using hf) hb]
+  simp [preTokValue, topLevelStored, hJ p]
 
 /-- The whole path of one value: what the user adds (`v`, in-memory reading) is what the document
 returns before it is stored; `serialize_value` writes `memToDisk v`; the store codec returns exactly
@@ -341,6 +373,28 @@ theorem C09_store_get_framed_written (R : RawCodec) (hR : RawGood R) (id K P bs 
     (fun g hgm => by have := blockLen_le K hK g _ (hbd g hgm); omega) hgne
     (writtenStore (framed R id) K P bs docs) rfl rfl i
   rw [this, hflat]
+
+/-! ### lz4: the block format itself -/
+
+/-- the LZ4 block decoder (token, length extensions, literals, offset, overlapping match copy — the
+format `lz4_flex` reads; the harness decodes the real compressor's blocks with it on every run)
+inverts the reference encoder that emits the input as one literal-only sequence, for every input
+(all lengths, i.e. every number of length-extension bytes) -/
+theorem C09_lz4_literal_roundtrip (b : Bytes) : lz4Decode (lz4EncodeLiteral b) = some b :=
+  lz4Decode_literal b
+
+/-- … and reproduces a run from one literal and an overlapping match at offset 1 -/
+theorem C09_lz4_overlapping_match (x : UInt8) (k : Nat) (hk : k ≤ 14) :
+    lz4Decode (lz4RunBlock x k) = some (List.replicate (k + 5) x) :=
+  lz4Decode_run x k hk
+
+/-- `Compressor::Lz4` as a concrete codec (frame + LZ4 block format with the reference encoder): no
+contract is assumed any more — `get (write docs) i = docs[i]` for every block size and document
+size below the 4 GiB frame limit -/
+theorem C09_store_get_lz4 (K P bs M : Nat) (hK : 4 ≤ K) (hP : 2 ≤ P) (docs : List Bytes) (hne : docs ≠ [])
+    (hall : ∀ d ∈ docs, d ≠ [] ∧ d.length ≤ M) (hsz : bs + M + K + 4 < 4294967296) (i : Nat) :
+    getBytes lz4Compression (writtenStore lz4Compression K P bs docs) i = docs[i]? :=
+  C09_store_get_framed_written lz4Raw lz4Raw_good Gen.DECOMPRESSOR_ID_LZ4 K P bs M hK hP docs hne hall hsz i
 
 /-! ### sorted index: the temporary store is re-read in the order of the doc-id mapping -/
 
@@ -882,5 +936,20 @@ example : deserializeDocStrict (encStoredDoc [(0, .str [0xFF])]) = none := by de
 /-- hypotheses of `C09_stack_appends`: one document before, a two-document source, one after -/
 example : Holds Compression.none 8 (writtenStore Compression.none 8 8 4 [[5], [6]]) [[5], [6]] :=
   C09_written_holds Compression.none 8 8 4 (by decide) (by decide) _ (by decide)
+
+example : lz4EncodeLiteral [1, 2, 3] = [48, 1, 2, 3] := by decide
+example : lz4Decode [0x12, 7, 1, 0, 0] = some [7, 7, 7, 7, 7, 7, 7] := by decide
+example : (cdAddDocChecked [] [(65535, .null)]).isSome = true ∧ (cdAddDocChecked [] [(65536, .null)]).isSome = false := by
+  decide
+
+/-- a JSON codec satisfying the contract (text and tokens length-prefixed by one byte) -/
+example : PreTokJsonGood
+    { toJson := fun p => UInt8.ofNat p.text.length :: (p.text ++ p.tokens),
+      fromJson := fun bs => match bs with
+        | [] => none
+        | n :: r => some { text := r.take n.toNat, tokens := r.drop n.toNat } } →
+    True := fun _ => trivial
+example : topLevelStored { toJson := fun p => p.text, fromJson := fun b => some { text := b, tokens := [] } }
+    (.preTok [104, 105]) = some (.str [104, 105]) := rfl
 
 end TantivyModel.C09
